@@ -97,6 +97,9 @@ func gen(r *rng.R, tier string) fw.Case {
 			nontrivial = true
 		case k < 12: // Get
 			rq, t := nbgen.GenGet(r, spec, tables, true)
+			if r.Chance(1, 5) {
+				rq, t = nbgen.GenSyncGet(r)
+			}
 			tags = append(tags, "get")
 			tags = append(tags, t...)
 			if r.Chance(1, 3) {
